@@ -430,3 +430,5 @@ META = {
     "outside_claim": ["more than 17 strings", "lone surrogates"],
     "assumptions": ["documented rule: Literal iff every string shorter than 20, at most 15 distinct, fewer than max_literals, not attrs, max_literals != 0"],
 }
+if isinstance(META.get("bounds"), dict) and "quick" in META["bounds"]:
+    META["bounds"]["quick"] += '; literal field in context: 5 counts x 4 limits x gap sample (absent / null at 3 positions) x long string first / last x 4 special sets x 3 placements x 2 frameworks'
